@@ -240,6 +240,16 @@ func (f Frame) term(v ssa.Value) (int64, bool) {
 		}
 		return 0, false
 	}
+	// inside a predicate helper a bound parameter stands for the caller's argument
+	if par, ok := v.(*ssa.Parameter); ok && f.In != nil {
+		if g := StaticCallee(f.In); g != nil {
+			for i, gp := range g.Params {
+				if gp == par && i < len(f.In.Args) {
+					return ConstInt(f.In.Args[i])
+				}
+			}
+		}
+	}
 	return ConstInt(v)
 }
 
